@@ -119,6 +119,15 @@ func getClass(class tables.ClassDef, gid gID) uint16 {
 	return c
 }
 
+// getCoverage returns the index of `gid` in `cov`, or false if it is not
+// covered by `cov` or if `cov` is nil (null offset in the font file)
+func getCoverage(cov tables.Coverage, gid gID) (int, bool) {
+	if cov == nil {
+		return 0, false
+	}
+	return cov.Index(gid)
+}
+
 // interprets `value` as a Class
 func matchClass(class tables.ClassDef) matcherFunc {
 	return func(gid gID, value uint16) bool {
